@@ -333,10 +333,21 @@ def run(ctx):
     found |= hash_seeds(ctx)
     found |= process_orders(ctx)
     found |= concurrent(ctx)
+    # coverage extension (props/c04_cov.py): appended, so that the streams above keep their case keys and random stream
+    from props import c04_cov
+    for sec in c04_cov.SECTIONS:
+        found |= bool(sec(ctx))
     ctx.coverage['rule'] = ('random histories of run() calls on one Fingerprinter (conformer object / int id / same conformer object again / mol=None, queries in between) over '
                             '%d small molecules x 3 conformers: every run compared with a fresh object, the last with the Coq object model (check_history); the in-place-mutation '
                             'history; the same jobs under several PYTHONHASHSEED values in subprocesses; the same jobs (including molecules with bond types outside the table) submitted in different orders to fresh interpreters and alone; in thread pools with a 1e-6 s switch interval; in a fork process pool; '
-                            'mutable default arguments compared before/after each history; non-trivial: any run after the first of a history' % len(SMALL))
+                            'mutable default arguments compared before/after each history; non-trivial: any run after the first of a history.  '
+                            'Coverage extension (props/c04_cov.py): history SCRIPTS on one object over a pool of %d molecule objects (hydrogens kept / removed, gapped conformer ids, '
+                            'isotopes, charges, fragments, one heavy atom, flat, twins, different compounds sharing name / atom count / formula, molecules on which run() raises), every call '
+                            'form of run() (positional, keyword, conformer only, molecule only, None, NumPy integer id, same conformer object, id without molecule), constructor bits and counts, '
+                            'coordinates edited in place and conformers added between runs, queries of every shape between runs, returned fingerprints kept (must not change) or modified by '
+                            'the caller (must not leak), every run compared with a fresh object at every level any earlier run reached; a subset also tied to the Coq object model; '
+                            'deterministic interleavings of 2-4 jobs switched at every iteration step; thread / fork workers that each reuse one object; the same pickled jobs in fresh '
+                            'interpreters under different hash seeds x submission orders x (fresh object per job | one object per option setting)' % (len(SMALL), len(c04_cov.pool())))
     ctx.assumptions += ['thread and process interleavings are exercised, not proved: the model has no shared state to race on; that the implementation has none rests on these runs (partial)',
                         'an identity token stands for `mol is self.mol`; GetOwningMol() returns a new Python object on each call, so run(conf) without mol always re-initialises']
     if not ok:
@@ -345,5 +356,13 @@ def run(ctx):
 
 def replay(ctx, path):
     d = json.load(open(path))
-    print(json.dumps(d['case'], indent=1)[:6000])
+    c = d.get('case', {})
+    print('replay of %s: %s' % (path, d.get('what', '')[:300]))
+    if isinstance(c, dict) and c.get('stream') in ('impl-history', 'model-history', 'interleaving'):
+        from props import c04_cov
+        rc = c04_cov.replay_payload(ctx, c)
+        if rc:
+            print('VIOLATION property=%s replay=%s' % (ctx.pid, path))
+        return rc or 0
+    print(json.dumps(c, indent=1)[:6000])
     return 0
